@@ -9,6 +9,7 @@ import (
 	"hash/fnv"
 	"os"
 	"path/filepath"
+	"runtime"
 	"sort"
 	"strconv"
 	"strings"
@@ -26,10 +27,11 @@ type Env struct {
 	Shards int
 	Phase  string // free text naming the phase of a multi-phase run
 	Replay string // path of a replay file, "" in normal runs
+	Light  bool   // VERIF_LIGHT=1: the lighter workload of the 32-bit process (largest walks skipped, rapid counts / 4)
 }
 
 func GetEnv() Env {
-	e := Env{Dir: os.Getenv("VERIF_DIR"), Tier: os.Getenv("VERIF_TIER"), Phase: os.Getenv("VERIF_PHASE"), Replay: os.Getenv("VERIF_REPLAY")}
+	e := Env{Dir: os.Getenv("VERIF_DIR"), Tier: os.Getenv("VERIF_TIER"), Phase: os.Getenv("VERIF_PHASE"), Replay: os.Getenv("VERIF_REPLAY"), Light: os.Getenv("VERIF_LIGHT") == "1"}
 	if e.Dir == "" {
 		e.Dir = "/verif"
 	}
@@ -61,6 +63,9 @@ func (e Env) Scale(q, t int) int {
 	n := q
 	if e.Tier == "thorough" {
 		n = t
+	}
+	if e.Light {
+		n = (n + 3) / 4
 	}
 	if s := os.Getenv("VERIF_SCALE"); s != "" {
 		if f, err := strconv.ParseFloat(s, 64); err == nil && f > 0 {
@@ -132,6 +137,9 @@ func (r *Recorder) Count(class string, n int64) {
 // AddExact records the result of a complete enumeration: n cases visited once
 // each, nt of them non-trivial (distinct by construction).
 func (r *Recorder) AddExact(n, nt int64) {
+	if r.Env.Light || r.Env.Phase == "plain" {
+		nt = 0 // the side processes re-evaluate inputs of the main process under another build: evaluations, not new distinct cases
+	}
 	r.mu.Lock()
 	r.evals += n
 	r.exactNT += nt
@@ -156,6 +164,9 @@ func (r *Recorder) WantSample(label string) bool {
 }
 
 func (r *Recorder) SetExhaustive(b bool) {
+	if r.Env.Light || r.Env.Phase == "plain" {
+		return // the side processes (32-bit sample, plain build of C14) make no completeness claim of their own
+	}
 	r.mu.Lock()
 	if r.exhaustive == nil || !b {
 		r.exhaustive = &b
@@ -163,8 +174,12 @@ func (r *Recorder) SetExhaustive(b bool) {
 	r.mu.Unlock()
 }
 func (r *Recorder) Extra(k string, v any) { r.mu.Lock(); r.extra[k] = v; r.mu.Unlock() }
-func (r *Recorder) Assume(s string)       { r.mu.Lock(); r.assumptions = append(r.assumptions, s); r.mu.Unlock() }
-func (r *Recorder) Violation()            { r.mu.Lock(); r.violations++; r.mu.Unlock() }
+func (r *Recorder) Assume(s string) {
+	r.mu.Lock()
+	r.assumptions = append(r.assumptions, s)
+	r.mu.Unlock()
+}
+func (r *Recorder) Violation() { r.mu.Lock(); r.violations++; r.mu.Unlock() }
 func (r *Recorder) Known(id string, n int64) {
 	r.mu.Lock()
 	r.known[id] += n
@@ -259,13 +274,14 @@ func (r *Recorder) WritePart() error {
 
 // Replay is the on-disk form of a failing case.
 type Replay struct {
-	Prop  string          `json:"property_id"`
-	Kind  string          `json:"kind"`
-	Case  json.RawMessage `json:"case"`
-	Error string          `json:"error"`
-	Seed  int64           `json:"seed"`
-	Tier  string          `json:"tier"`
-	Note  string          `json:"note,omitempty"`
+	Prop   string          `json:"property_id"`
+	Kind   string          `json:"kind"`
+	Case   json.RawMessage `json:"case"`
+	Error  string          `json:"error"`
+	Seed   int64           `json:"seed"`
+	Tier   string          `json:"tier"`
+	Note   string          `json:"note,omitempty"`
+	GoArch string          `json:"goarch,omitempty"` // set when the failing run was not the default 64-bit build
 }
 
 // SaveReplay (over)writes the replay file of this process for the property.
@@ -277,6 +293,9 @@ func (r *Recorder) SaveReplay(kind string, c any, err error) string {
 		b = []byte(strconv.Quote(fmt.Sprintf("%#v", c)))
 	}
 	rp := Replay{Prop: r.Prop, Kind: kind, Case: b, Error: err.Error(), Seed: r.Env.Seed, Tier: r.Env.Tier}
+	if runtime.GOARCH != "amd64" {
+		rp.GoArch = runtime.GOARCH
+	}
 	out, _ := json.MarshalIndent(rp, "", " ")
 	dir := filepath.Join(r.Env.Out, "replays")
 	os.MkdirAll(dir, 0o755)
